@@ -153,7 +153,9 @@ func CombFamily(level int) []*Topo {
 		if level > 0 { // additionally: no peering, and every single peering link alone
 			masks = append(masks, 0)
 			for k := range cands {
-				masks = append(masks, 1<<k)
+				if 1<<k != masks[0] {
+					masks = append(masks, 1<<k)
+				}
 			}
 		}
 		for _, mask := range masks {
